@@ -949,13 +949,19 @@ def inject_candidates(wb):
     problem, mutate(workbook copy))"""
     out = []
     used = set(used_flow_sheets(wb))
-    inserted = set()
-    for _, n, rows in flow_sheets(wb):
-        if n in used:
-            for r in rows:
-                if r["type"] == "insert_as_block" and r["inc"] == "t":
-                    inserted.add(t_text(r["main"]))
-    live = used | inserted
+    by_name = {n: rows for _, n, rows in flow_sheets(wb)}
+    live = set(used)
+    work = list(used)
+    while work:
+        n = work.pop()
+        rows = by_name.get(n, [])
+        for q in evaluated_positions(rows):
+            r = rows[q]
+            if r["type"] == "insert_as_block":
+                t = t_text(r["main"])
+                if t not in live:
+                    live.add(t)
+                    work.append(t)
 
     def flow_mut(si, pos, f):
         def m(w):
@@ -992,7 +998,7 @@ def inject_candidates(wb):
             if t in RTYPES[:11] + ["no_op", "hard_exit", "loose_exit", "go_to", "insert_as_block", "begin_for", "begin_block"]:
                 def unknown(rs, q):
                     rs[q]["edges"][0] = dict(frm=lit("c15_no_such_row"), cond=rs[q]["edges"][0]["cond"])
-                out.append(("edge_from_unknown_row", [30], f"{name} row {p + 2}", rowtok(p) + ["c15_no_such_row"], flow_mut(si, p, unknown)))
+                out.append(("edge_from_unknown_row", [30], f"{name} row {p + 2}", [name, "c15_no_such_row"], flow_mut(si, p, unknown)))
             if t == "send_message" and r["edges"][0]["cond"]["val"] and t_text(r["edges"][0]["frm"]) not in ("", "start"):
                 # a conditional edge out of a router row: an over-long category name
                 src = t_text(r["edges"][0]["frm"])
